@@ -557,6 +557,7 @@ def run_operator(sc: dict, wall_limit: float = 60.0) -> dict:
         # the orchestrator protocol as a label trace (Model/C19_Orchestrator): revise / acquire / termDone / spawnAll / die
         from kopf._cogs.structs import references as _refs
         orch_trace: list = []
+        deaths: list = []
         watched_tasks: dict = {}
 
         def snapshot(ins: Any) -> dict:
@@ -596,6 +597,7 @@ def run_operator(sc: dict, wall_limit: float = 60.0) -> dict:
                     def on_done(t: Any, key: Any = key) -> None:
                         if not t.cancelled() and state_on["on"]:
                             orch_trace.append(["die", [key.resource.plural, key.namespace]])
+                            deaths.append([key.resource.plural, key.namespace, loop.time()])
                     task.add_done_callback(on_done)
             passes.append([t0, loop.time()])
         orchestration.adjust_tasks = obs_adjust  # type: ignore[assignment]
@@ -683,7 +685,7 @@ def run_operator(sc: dict, wall_limit: float = 60.0) -> dict:
                     "watch_requests": [{"t": r["t"], "path": r["path"], "since": r["query"].get("resourceVersion"),
                                         "response": r["response"]} for r in cluster.requests
                                        if r["method"] == "GET" and r["query"].get("watch") == "true"],
-                    "ns_feed": ns_feed, "passes": passes, "orch_trace": trace_at_end,
+                    "ns_feed": ns_feed, "passes": passes, "orch_trace": trace_at_end, "deaths": deaths,
                     "not_found": sorted({r["path"].rstrip("/").split("/")[-1] for r in cluster.requests
                                          if r["method"] == "GET" and r["response"] == 404}),
                     "not_found_at": {r["path"].rstrip("/").split("/")[-1]: r["t"] for r in cluster.requests
